@@ -62,9 +62,16 @@ func isWS(c byte) bool { return c == ' ' || c == '\t' || c == '\r' || c == '\n' 
 // white space and must then be delimited by """ on both sides. ok=false when it is not (e.g.
 // a document that was not produced by parsing, or an unterminated literal).
 func (w *walker) blockRaw(r ast.ByteSliceReference) (string, bool) {
+	raw, ok, _ := w.blockRawQ(r)
+	return raw, ok
+}
+
+// blockRawQ also reports whether a further quote touches a delimiter from outside the
+// recovered text (four or more quotes in a row), which makes the delimitation ambiguous.
+func (w *walker) blockRawQ(r ast.ByteSliceReference) (raw string, ok bool, extraQuote bool) {
 	in := w.d.Input.RawBytes
 	if r.Start > r.End || int(r.End) > len(in) {
-		return "", false
+		return "", false, false
 	}
 	s, e := int(r.Start), int(r.End)
 	for s > 0 && isWS(in[s-1]) {
@@ -74,9 +81,10 @@ func (w *walker) blockRaw(r ast.ByteSliceReference) (string, bool) {
 		e++
 	}
 	if s < 3 || string(in[s-3:s]) != `"""` || e+3 > len(in) || string(in[e:e+3]) != `"""` {
-		return "", false
+		return "", false, false
 	}
-	return string(in[s:e]), true
+	extraQuote = s >= 4 && in[s-4] == '"' || e+3 < len(in) && in[e+3] == '"'
+	return string(in[s:e]), true, extraQuote
 }
 
 func (w *walker) stringNode(kStr, kBlock, what string, block bool, r ast.ByteSliceReference) *sn {
